@@ -189,4 +189,890 @@ Proof.
   exists t. rewrite Nat.add_1_r. repeat split; auto. intros k Hk. apply F. lia.
 Qed.
 
+
+(* ------------------------------------------------------------------ *)
+(* Instruction-level facts                                             *)
+
+Lemma arg_target_ok pc tgt :
+  pc < tgt -> tgt <= nprog o -> arg_target o pc (OInt (zl tgt)) = VOk tgt.
+Proof.
+  intros H1 H2. unfold arg_target, zl. cbn [arg_int vbind].
+  assert (Hb : (Z.of_nat pc <? Z.of_nat tgt)%Z && (Z.of_nat tgt <=? Z.of_nat (nprog o))%Z = true) by lia.
+  rewrite Hb. cbn [vguard vbind]. rewrite Nat2Z.id. reflexivity.
+Qed.
+
+Definition idx_ok (n : N) (len : nat) : bool := (Z.of_N n <? Z.of_nat len)%Z.
+
+Lemma arg_index_ok n len : idx_ok n len = true -> arg_index (OInt (zn n)) len = VOk (N.to_nat n).
+Proof.
+  unfold idx_ok, arg_index, zn. intros H. cbn [arg_int vbind].
+  assert (Hb : (0 <=? Z.of_N n)%Z && (Z.of_N n <? Z.of_nat len)%Z = true) by lia.
+  rewrite Hb. cbn [vguard vbind]. rewrite <- N_nat_Z, Nat2Z.id. reflexivity.
+Qed.
+
+Definition bin_rule (op : opcode) : option ((cls -> bool) * cls) :=
+  match op with
+  | Fadd | Fsub | Fmul | Fdiv | Fmod | Fpow => Some (float_ok, CF64)
+  | Iadd | Isub | Imul | Idiv | Imod | Ipow | Shl | Shr | And | Or | Xor => Some (int_ok, CI64)
+  | Cat => Some (str_ok, CStr)
+  | Icmp => Some (int_ok, CBool)
+  | Fcmp => Some (float_ok, CBool)
+  | Scmp => Some (str_ok, CBool)
+  | Cmp => Some (cmp_ok, CBool)
+  | _ => None
+  end.
+
+Lemma bin_transfer op a ok c ca cb pc A :
+  bin_rule op = Some (ok, c) -> ok ca = true -> ok cb = true ->
+  (match op with Icmp | Fcmp | Scmp | Cmp => arg_cmp a = VOk tt | _ => True end) ->
+  transfer o pc (ins op a) (cb :: ca :: A) = VOk [(S pc, c :: A)].
+Proof.
+  destruct op; cbn [bin_rule]; try discriminate; intros [= <- <-] Ha Hb Harg;
+  unfold transfer; cbn; rewrite ?Harg; cbn; rewrite Hb; cbn; rewrite Ha; reflexivity.
+Qed.
+
+Definition un_rule (op : opcode) : option ((cls -> bool) * cls) :=
+  match op with
+  | I2f => Some (int_ok, CF64)
+  | S2f => Some (str_ok, CF64)
+  | S2i => Some (str_ok, CI64)       (* operand nil *)
+  | F2s => Some (float_ok, CStr)
+  | I2s => Some (int_ok, CStr)
+  | Neg => Some (int_ok, CI64)
+  | Length => Some (str_ok, CInt None)
+  | Tolower => Some (str_ok, CStr)
+  | _ => None
+  end.
+
+Lemma un_transfer op a ok c ca pc A :
+  un_rule op = Some (ok, c) -> ok ca = true ->
+  (match op with S2i => a = ONil | _ => True end) ->
+  transfer o pc (ins op a) (ca :: A) = VOk [(S pc, c :: A)].
+Proof.
+  destruct op; cbn [un_rule]; try discriminate; intros [= <- <-] Ha Harg;
+  unfold transfer; cbn; rewrite ?Harg; cbn; rewrite Ha; reflexivity.
+Qed.
+
+Lemma xseg_un pc c op a ok cl ca A :
+  xseg pc c A (ca :: A) -> un_rule op = Some (ok, cl) -> ok ca = true ->
+  (match op with S2i => a = ONil | _ => True end) ->
+  xseg pc (c ++ [ins op a]) A (cl :: A).
+Proof.
+  intros H Hr Hok Ha. eapply xseg_app; eauto. apply xseg1. eapply un_transfer; eauto.
+Qed.
+
+Lemma xseg_bin pc c1 c2 op a ok cl ca cb A :
+  xseg pc c1 A (ca :: A) -> xseg (pc + length c1) c2 (ca :: A) (cb :: ca :: A) ->
+  bin_rule op = Some (ok, cl) -> ok ca = true -> ok cb = true ->
+  (match op with Icmp | Fcmp | Scmp | Cmp => arg_cmp a = VOk tt | _ => True end) ->
+  xseg pc (c1 ++ c2 ++ [ins op a]) A (cl :: A).
+Proof.
+  intros H1 H2 Hr Ha Hb Harg. eapply xseg_app; eauto. eapply xseg_app; eauto.
+  apply xseg1. eapply bin_transfer; eauto.
+Qed.
+
+(* jump; push b1; jmp; push b2: the tail of a comparison, && and ||.  The
+   "false" target may already have been reached from the first operand. *)
+Lemma diamond pc jop b1 b2 c0 A rest tbl :
+  (jop = Jnm \/ jop = Jm) -> cond_ok c0 = true ->
+  S (S (S (S pc))) < length tbl -> length tbl = S (nprog o) ->
+  nth_error tbl pc = Some (Some (c0 :: A)) ->
+  nth_error tbl (S pc) = Some None ->
+  nth_error tbl (S (S pc)) = Some None ->
+  nth_error tbl (S (S (S (S pc)))) = Some None ->
+  (nth_error tbl (S (S (S pc))) = Some None \/ nth_error tbl (S (S (S pc))) = Some (Some A)) ->
+  exists tbl',
+    infer_from o ([ins jop (OInt (zl (S (S (S pc))))); ins Push (OBool b1);
+                   ins Jmp (OInt (zl (S (S (S (S pc)))))); ins Push (OBool b2)] ++ rest) pc tbl
+      = infer_from o rest (S (S (S (S pc)))) tbl' /\
+    length tbl' = length tbl /\
+    nth_error tbl' (S (S (S (S pc)))) = Some (Some (CBool :: A)) /\
+    (forall k, k > S (S (S (S pc))) -> nth_error tbl' k = nth_error tbl k).
+Proof.
+  intros Hj Hc Hlt Hl H0 H1 H2 H4 H3.
+  assert (Hn : S (S (S (S pc))) <= nprog o) by lia.
+  (* the conditional jump *)
+  assert (T1 : transfer o pc (ins jop (OInt (zl (S (S (S pc)))))) (c0 :: A)
+               = VOk [(S pc, A); (S (S (S pc)), A)]).
+  { destruct Hj as [-> | ->]; unfold transfer; cbn [i_op i_arg ins apop vbind]; rewrite Hc;
+    cbn [vbind]; rewrite arg_target_ok by lia; reflexivity. }
+  set (t1 := fold_left merge [(S pc, A); (S (S (S pc)), A)] tbl).
+  assert (E1 : nth_error t1 (S pc) = Some (Some A)).
+  { unfold t1. cbn [fold_left]. rewrite merge_other' by lia. apply merge_none; auto. }
+  assert (E3 : nth_error t1 (S (S (S pc))) = Some (Some A)).
+  { unfold t1. cbn [fold_left]. destruct H3 as [H3|H3].
+    - apply merge_none. rewrite merge_other' by lia. auto.
+    - erewrite merge_some by (rewrite merge_other' by lia; eauto). rewrite common_refl. auto. }
+  assert (O1 : forall k, k <> S pc -> k <> S (S (S pc)) -> nth_error t1 k = nth_error tbl k).
+  { intros k Ha Hb. unfold t1. cbn [fold_left]. rewrite !merge_other' by lia. auto. }
+  (* push b1 *)
+  assert (T2 : transfer o (S pc) (ins Push (OBool b1)) A = VOk [(S (S pc), CBool :: A)]) by reflexivity.
+  set (t2 := fold_left merge [(S (S pc), CBool :: A)] t1).
+  assert (E2 : nth_error t2 (S (S pc)) = Some (Some (CBool :: A))).
+  { unfold t2. cbn [fold_left]. apply merge_none. rewrite O1 by lia. auto. }
+  assert (O2 : forall k, k <> S (S pc) -> nth_error t2 k = nth_error t1 k).
+  { intros k Ha. unfold t2. cbn [fold_left]. rewrite merge_other' by lia. auto. }
+  (* jmp *)
+  assert (T3 : transfer o (S (S pc)) (ins Jmp (OInt (zl (S (S (S (S pc))))))) (CBool :: A)
+               = VOk [(S (S (S (S pc))), CBool :: A)]).
+  { unfold transfer; cbn [i_op i_arg ins vbind]. rewrite arg_target_ok by lia. reflexivity. }
+  set (t3 := fold_left merge [(S (S (S (S pc))), CBool :: A)] t2).
+  assert (E4 : nth_error t3 (S (S (S (S pc)))) = Some (Some (CBool :: A))).
+  { unfold t3. cbn [fold_left]. apply merge_none. rewrite O2, O1 by lia. auto. }
+  assert (O3 : forall k, k <> S (S (S (S pc))) -> nth_error t3 k = nth_error t2 k).
+  { intros k Ha. unfold t3. cbn [fold_left]. rewrite merge_other' by lia. auto. }
+  (* push b2 *)
+  assert (T4 : transfer o (S (S (S pc))) (ins Push (OBool b2)) A = VOk [(S (S (S (S pc))), CBool :: A)])
+    by reflexivity.
+  set (t4 := fold_left merge [(S (S (S (S pc))), CBool :: A)] t3).
+  exists t4. cbn [app].
+  rewrite (infer_step _ _ _ _ _ _ H0 T1). fold t1.
+  rewrite (infer_step _ _ _ _ _ _ E1 T2). fold t2.
+  rewrite (infer_step _ _ _ _ (CBool :: A) _ E2 T3). fold t3.
+  assert (E3' : nth_error t3 (S (S (S pc))) = Some (Some A)) by (rewrite O3, O2 by lia; exact E3).
+  rewrite (infer_step _ _ _ _ A _ E3' T4). fold t4.
+  repeat split.
+  - unfold t4, t3, t2, t1. rewrite !fold_merge_length. reflexivity.
+  - unfold t4. cbn [fold_left]. erewrite merge_some by eauto. rewrite common_refl. reflexivity.
+  - intros k Hk. unfold t4. cbn [fold_left]. rewrite merge_other' by lia. rewrite O3, O2, O1 by lia. reflexivity.
+Qed.
+
+(* compare; jump; push; jmp; push *)
+Lemma cmp_tail pc cop carg jop ok ca cb A :
+  bin_rule cop = Some (ok, CBool) -> ok ca = true -> ok cb = true ->
+  (match cop with Icmp | Fcmp | Scmp | Cmp => arg_cmp (OInt carg) = VOk tt | _ => True end) ->
+  (jop = Jnm \/ jop = Jm) ->
+  xseg pc [ins cop (OInt carg); ins jop (OInt (zl (pc + 4))); ins Push (OBool true);
+           ins Jmp (OInt (zl (pc + 5))); ins Push (OBool false)] (cb :: ca :: A) (CBool :: A).
+Proof.
+  intros Hr Ha Hb Harg Hj rest tbl Hlt Hl He Hn. cbn [length] in *.
+  pose proof (bin_transfer cop (OInt carg) ok CBool ca cb pc A Hr Ha Hb Harg) as T0.
+  cbn [app]. rewrite (infer_step _ _ _ _ _ _ He T0). cbn [fold_left].
+  set (t1 := merge tbl (S pc, CBool :: A)).
+  assert (O1 : forall k, k <> S pc -> nth_error t1 k = nth_error tbl k).
+  { intros k Hk. unfold t1. apply merge_other'. auto. }
+  replace (pc + 4) with (S (S (S (S pc)))) by lia.
+  replace (pc + 5) with (S (S (S (S (S pc))))) by lia.
+  destruct (diamond (S pc) jop true false CBool A rest t1) as (t & E & L & X & F); auto.
+  - unfold t1. rewrite merge_length. lia.
+  - unfold t1. rewrite merge_length. auto.
+  - unfold t1. apply merge_none. apply Hn. lia.
+  - rewrite O1 by lia. apply Hn. lia.
+  - rewrite O1 by lia. apply Hn. lia.
+  - rewrite O1 by lia. apply Hn. lia.
+  - left. rewrite O1 by lia. apply Hn. lia.
+  - exists t. replace (pc + 5) with (S (S (S (S (S pc))))) by lia.
+    split; [exact E|]. split; [unfold t1 in L; rewrite merge_length in L; exact L|].
+    split; [exact X|]. intros k Hk. rewrite F by lia. apply O1. lia.
+Qed.
+
+(* a ; jump-if-(not) to the false/true branch ; b ; diamond   (&& and ||) *)
+Lemma andor_xseg pc c1 c2 jop b1 b2 ca cb A :
+  (jop = Jnm \/ jop = Jm) -> cond_ok ca = true -> cond_ok cb = true ->
+  xseg pc c1 A (ca :: A) -> xseg (pc + length c1 + 1) c2 A (cb :: A) ->
+  xseg pc (c1 ++ [ins jop (OInt (zl (pc + length c1 + 1 + length c2 + 3)))] ++ c2 ++
+           [ins jop (OInt (zl (pc + length c1 + 1 + length c2 + 3))); ins Push (OBool b1);
+            ins Jmp (OInt (zl (pc + length c1 + 1 + length c2 + 4))); ins Push (OBool b2)])
+       A (CBool :: A).
+Proof.
+  intros Hj Hca Hcb H1 H2 rest tbl Hlt Hl He Hn.
+  rewrite !app_length in *. cbn [length] in *.
+  set (q := pc + length c1 + 1 + length c2) in *.
+  set (tail := [ins jop (OInt (zl (q + 3))); ins Push (OBool b1); ins Jmp (OInt (zl (q + 4))); ins Push (OBool b2)]).
+  rewrite <- !app_assoc.
+  destruct (H1 ([ins jop (OInt (zl (q + 3)))] ++ c2 ++ tail ++ rest) tbl) as (t1 & E1 & L1 & X1 & F1); auto; try lia.
+  { intros k Hk. apply Hn. lia. }
+  rewrite E1. cbn [app].
+  assert (T : transfer o (pc + length c1) (ins jop (OInt (zl (q + 3)))) (ca :: A)
+              = VOk [(S (pc + length c1), A); (q + 3, A)]).
+  { destruct Hj as [-> | ->]; unfold transfer; cbn [i_op i_arg ins apop vbind]; rewrite Hca;
+    cbn [vbind]; rewrite arg_target_ok by (unfold q; lia); reflexivity. }
+  rewrite (infer_step _ _ _ _ _ _ X1 T). cbn [fold_left].
+  set (t2 := merge (merge t1 (S (pc + length c1), A)) (q + 3, A)).
+  assert (L2 : length t2 = length tbl) by (unfold t2; rewrite !merge_length; auto).
+  assert (O2 : forall k, k <> S (pc + length c1) -> k <> q + 3 -> nth_error t2 k = nth_error t1 k).
+  { intros k Ha Hb. unfold t2. rewrite !merge_other' by lia. auto. }
+  assert (E2 : nth_error t2 (S (pc + length c1)) = Some (Some A)).
+  { unfold t2. rewrite merge_other' by (unfold q; lia). apply merge_none. rewrite F1 by lia. apply Hn. unfold q. lia. }
+  assert (E23 : nth_error t2 (q + 3) = Some (Some A)).
+  { unfold t2. apply merge_none. rewrite merge_other' by (unfold q; lia). rewrite F1 by (unfold q; lia).
+    apply Hn. unfold q. lia. }
+  replace (S (pc + length c1)) with (pc + length c1 + 1) in * by lia.
+  destruct (H2 (tail ++ rest) t2) as (t3 & E3 & L3 & X3 & F3); auto; try (unfold q in *; lia).
+  { intros k Hk. rewrite O2 by (unfold q; lia). rewrite F1 by lia. apply Hn. unfold q. lia. }
+  rewrite E3. fold q. fold q in X3, F3.
+  subst tail.
+  replace (pc + (length c1 + (1 + (length c2 + 4)))) with (S (S (S (S q)))) in * by (unfold q; lia).
+  replace (q + 3) with (S (S (S q))) in * by lia. replace (q + 4) with (S (S (S (S q)))) in * by lia.
+  assert (Hnone : forall k, k > q -> k <> S (S (S q)) -> k <= S (S (S (S q))) -> nth_error t3 k = Some None).
+  { intros k Ha Hb Hc. rewrite F3 by lia. rewrite O2 by (unfold q; lia). rewrite F1 by (unfold q; lia).
+    apply Hn. unfold q in *. lia. }
+  assert (D1 : S (S (S (S q))) < length t3) by (rewrite L3, L2; unfold q in *; lia).
+  assert (D2 : length t3 = S (nprog o)) by congruence.
+  assert (D3 : nth_error t3 (S (S (S q))) = Some (Some A)) by (rewrite F3 by lia; exact E23).
+  destruct (diamond q jop b1 b2 cb A rest t3 Hj Hcb D1 D2 X3
+              (Hnone (S q) ltac:(lia) ltac:(lia) ltac:(lia)) (Hnone (S (S q)) ltac:(lia) ltac:(lia) ltac:(lia))
+              (Hnone (S (S (S (S q)))) ltac:(lia) ltac:(lia) ltac:(lia)) (or_intror D3)) as (t & E & L & X & F).
+  exists t.
+  split; [exact E|]. split; [exact (eq_trans L (eq_trans L3 L2))|]. split; [exact X|].
+  intros k Hk. rewrite F by lia. rewrite F3 by lia. rewrite O2 by (unfold q; lia). apply F1. unfold q in *. lia.
+Qed.
+
+(* ------------------------------------------------------------------ *)
+(* Class inference on the tree = the fragment                          *)
+
+Definition nre := length (p_res p).
+Definition nstrs := length (p_strs p).
+
+Definition cap_cls (t : ty) : cls := match t with TFloat => CF64 | TInt => CI64 | _ => CStr end.
+Definition get_cls (t : ty) : cls := match t with TFloat => CF64 | TStr => CStr | _ => CI64 end.
+
+Definition conv_cls (f t : ty) (c : cls) : option cls :=
+  match f, t with
+  | TInt, TFloat => if int_ok c then Some CF64 else None
+  | TStr, TFloat => if str_ok c then Some CF64 else None
+  | TStr, TInt => if str_ok c then Some CI64 else None
+  | TFloat, TStr => if float_ok c then Some CStr else None
+  | TInt, TStr => if int_ok c then Some CStr else None
+  | _, _ => Some c
+  end.
+
+Definition bin_cls (op : opcode) (a b : option cls) : option cls :=
+  match bin_rule op, a, b with
+  | Some (ok, c), Some ca, Some cb => if ok ca && ok cb then Some c else None
+  | _, _, _ => None
+  end.
+
+Definition un_cls (op : opcode) (a : option cls) : option cls :=
+  match un_rule op, a with
+  | Some (ok, c), Some ca => if ok ca then Some c else None
+  | _, _ => None
+  end.
+
+(* the metric exists and is given as many keys as it has dimensions *)
+Definition metric_ok (m : N) (n : nat) : bool :=
+  match nth_error D (N.to_nat m) with
+  | Some d => Nat.eqb n (N.to_nat (md_nkeys d))
+  | None => false
+  end.
+
+Fixpoint ce (e : expr) {struct e} : option cls :=
+  match e with
+  | EInt _ => Some CI64
+  | EFloat _ => Some CF64
+  | EStr sid _ => if idx_ok sid nstrs then Some CStr else None
+  | ECap _ _ t => Some (cap_cls t)
+  | EConv f t a => match ce a with Some c => conv_cls f t c | None => None end
+  | EArith op t a b => bin_cls (arith_op op t) (ce a) (ce b)
+  | EBit op a b => bin_cls (bit_op op) (ce a) (ce b)
+  | ENeg a => un_cls Neg (ce a)
+  | ECmp _ t typed a b => bin_cls (cmp_opcode t typed) (ce a) (ce b)
+  | EAnd a b | EOr a b =>
+      match ce a, ce b with
+      | Some ca, Some cb => if cond_ok ca && cond_ok cb then Some CBool else None
+      | _, _ => None
+      end
+  | EMatch pid => if idx_ok pid nre then Some CBool else None
+  | ESMatch _ a pid =>
+      match ce a with
+      | Some c => if str_ok c && idx_ok pid nre then Some CBool else None
+      | None => None
+      end
+  | EGet m ks => if keys_ok ks && metric_ok m (exprs_len ks) then Some (get_cls (mty D m)) else None
+  | ELen a => un_cls Length (ce a)
+  | ETolower a => un_cls Tolower (ce a)
+  | EStrtol a b =>
+      match ce a, ce b with
+      | Some ca, Some cb => if str_ok ca && int_ok cb then Some CI64 else None
+      | _, _ => None
+      end
+  | ESubst x y z =>
+      match ce x, ce y, ce z with
+      | Some cx, Some cy, Some cz => if str_ok cx && str_ok cy && str_ok cz then Some CStr else None
+      | _, _, _ => None
+      end
+  | ERsubst pid y z =>
+      match ce y, ce z with
+      | Some cy, Some cz => if str_ok cy && str_ok cz && idx_ok pid nre then Some CStr else None
+      | _, _ => None
+      end
+  | ETimestamp => Some CI64
+  | EGetfilename => Some CStr
+  end
+with keys_ok (ks : exprs) {struct ks} : bool :=
+  match ks with
+  | XNil => true
+  | XCons e r => match ce e with Some c => str_ok c && keys_ok r | None => false end
+  end.
+
+Lemma apop_n_app L : forall A, forallb str_ok L = true -> apop_n str_ok (length L) (L ++ A) = VOk A.
+Proof.
+  induction L as [|c L IH]; intros A H; cbn in *; auto.
+  apply andb_true_iff in H as [H1 H2]. rewrite H1. cbn. auto.
+Qed.
+
+Lemma metric_ok_inv m n :
+  metric_ok m n = true ->
+  exists d, nth_error D (N.to_nat m) = Some d /\ n = N.to_nat (md_nkeys d) /\
+            idx_ok m (length (o_metrics o)) = true /\
+            nth_error (o_metrics o) (N.to_nat m) = Some (mdesc_of d) /\ mty D m = md_ty d.
+Proof.
+  unfold metric_ok, mty. destruct (nth_error D (N.to_nat m)) as [d|] eqn:Hd; try discriminate.
+  intros H. apply Nat.eqb_eq in H. exists d. repeat split; auto.
+  - assert (N.to_nat m < length D) by (apply nth_error_Some; congruence).
+    unfold idx_ok, o, codegen. cbn [o_metrics]. rewrite map_length. fold D. lia.
+  - unfold o, codegen. cbn [o_metrics]. fold D. rewrite nth_error_map, Hd. reflexivity.
+Qed.
+
+(* keys ; mload m ; dload n  leaves the datum of m[keys] *)
+Lemma lval_xseg pc c m n L A :
+  xseg pc c A (L ++ A) -> length L = n -> forallb str_ok L = true -> metric_ok m n = true ->
+  xseg pc (c ++ [ins Mload (OInt (zn m)); ins Dload (OInt (zl n))]) A
+       (CDatum (mtype_of (mty D m)) :: A).
+Proof.
+  intros Hc HL Hs Hm. destruct (metric_ok_inv _ _ Hm) as (d & Hd & Hn & Hi & Hmd & Hty).
+  eapply xseg_app; [exact Hc|].
+  change [ins Mload (OInt (zn m)); ins Dload (OInt (zl n))]
+    with ([ins Mload (OInt (zn m))] ++ [ins Dload (OInt (zl n))]).
+  eapply xseg_app.
+  - apply xseg1. unfold transfer. cbn [i_op i_arg ins vbind]. rewrite (arg_index_ok _ _ Hi). reflexivity.
+  - apply xseg1. unfold transfer. cbn [i_op i_arg ins]. unfold apop_metric_keys.
+    rewrite Hmd. unfold zl. cbn [arg_int vbind md_arity mdesc_of].
+    assert (Hg : (Z.of_nat n =? Z.of_nat (N.to_nat (md_nkeys d)))%Z = true) by lia.
+    rewrite Hg. cbn [vguard vbind]. rewrite <- Hn, <- HL. rewrite apop_n_app by auto.
+    cbn [vbind md_type mdesc_of]. rewrite Hty. reflexivity.
+Qed.
+
+Lemma get_transfer t pc A :
+  transfer o pc (ins (get_op t) ONil) (CDatum (mtype_of t) :: A) = VOk [(S pc, get_cls t :: A)].
+Proof. destruct t; reflexivity. Qed.
+
+Scheme expr_mind := Induction for expr Sort Prop
+  with exprs_mind := Induction for exprs Sort Prop.
+Combined Scheme expr_exprs_ind from expr_mind, exprs_mind.
+
+Ltac inv_bin H :=
+  unfold bin_cls in H;
+  match type of H with
+  | match bin_rule ?op with _ => _ end = _ =>
+      let ok := fresh "ok" in let cl := fresh "cl" in let Hr := fresh "Hr" in
+      destruct (bin_rule op) as [[ok cl]|] eqn:Hr; try discriminate
+  end.
+
+Lemma cexpr_xseg :
+  (forall e, forall c, ce e = Some c -> forall pc A, xseg pc (cexpr D pc e) A (c :: A)) /\
+  (forall ks, keys_ok ks = true -> forall pc A,
+     exists L, length L = exprs_len ks /\ forallb str_ok L = true /\
+               xseg pc (cexprs D pc ks) A (L ++ A)).
+Proof.
+  apply expr_exprs_ind.
+  - (* EInt *) intros z c [= <-] pc A. apply xseg1. reflexivity.
+  - (* EFloat *) intros b c [= <-] pc A. apply xseg1. reflexivity.
+  - (* EStr *)
+    intros sid s c H pc A. cbn in H. destruct (idx_ok sid nstrs) eqn:Hi; try discriminate.
+    injection H as <-. apply xseg1. unfold transfer. cbn [i_op i_arg ins vbind].
+    unfold nstrs in Hi. rewrite (arg_index_ok sid (length (o_strs o)) Hi). reflexivity.
+  - (* ECap *)
+    intros pid grp t c [= <-] pc A. cbn [cexpr].
+    assert (Hcap : xseg pc [ins Push (OInt (zn pid)); ins Capref (OInt (zn grp))] A (CStr :: A)).
+    { change [ins Push (OInt (zn pid)); ins Capref (OInt (zn grp))]
+        with ([ins Push (OInt (zn pid))] ++ [ins Capref (OInt (zn grp))]).
+      eapply xseg_app; apply xseg1; [reflexivity|].
+      unfold transfer, zn. cbn [i_op i_arg ins apop is_cint vbind arg_int].
+      assert (Hg : (0 <=? Z.of_N grp)%Z = true) by lia. rewrite Hg. reflexivity. }
+    destruct t; cbn [cap_cls].
+    + eapply xseg_app; [exact Hcap|]. apply xseg1. reflexivity.
+    + eapply xseg_app; [exact Hcap|]. apply xseg1. reflexivity.
+    + rewrite app_nil_r. exact Hcap.
+    + rewrite app_nil_r. exact Hcap.
+  - (* EConv *)
+    intros f t a IH c H pc A. cbn in H. destruct (ce a) as [c0|] eqn:Ha; try discriminate.
+    specialize (IH c0 eq_refl pc A). cbn [cexpr].
+    destruct f, t; cbn in H; cbn [conv_code];
+    try (injection H as <-; rewrite app_nil_r; exact IH);
+    match type of H with (if ?b then _ else _) = _ => destruct b eqn:Hb; try discriminate end;
+    injection H as <-; eapply xseg_un; eauto; reflexivity.
+  - (* EArith *)
+    intros op t a IHa b IHb c H pc A. cbn in H. inv_bin H.
+    destruct (ce a) as [ca|] eqn:Ha; try discriminate. destruct (ce b) as [cb|] eqn:Hb; try discriminate.
+    destruct (ok ca) eqn:Hoa; try discriminate. destruct (ok cb) eqn:Hob; try discriminate.
+    injection H as <-. cbn [cexpr]. cbv zeta.
+    eapply xseg_bin; eauto. destruct op, t; cbn in Hr |- *; try discriminate; auto.
+  - (* EBit *)
+    intros op a IHa b IHb c H pc A. cbn in H. inv_bin H.
+    destruct (ce a) as [ca|] eqn:Ha; try discriminate. destruct (ce b) as [cb|] eqn:Hb; try discriminate.
+    destruct (ok ca) eqn:Hoa; try discriminate. destruct (ok cb) eqn:Hob; try discriminate.
+    injection H as <-. cbn [cexpr]. cbv zeta.
+    eapply xseg_bin; eauto. destruct op; cbn; auto.
+  - (* ENeg *)
+    intros a IH c H pc A. cbn in H. unfold un_cls in H. cbn [un_rule] in H.
+    destruct (ce a) as [ca|] eqn:Ha; try discriminate. destruct (int_ok ca) eqn:Hok; try discriminate.
+    injection H as <-. cbn [cexpr]. eapply xseg_un; eauto; reflexivity.
+  - (* ECmp *)
+    intros op t typed a IHa b IHb c H pc A. cbn in H. inv_bin H.
+    destruct (ce a) as [ca|] eqn:Ha; try discriminate. destruct (ce b) as [cb|] eqn:Hb; try discriminate.
+    destruct (ok ca) eqn:Hoa; try discriminate. destruct (ok cb) eqn:Hob; try discriminate.
+    injection H as <-. cbn [cexpr]. cbv zeta.
+    assert (Hcl : cl = CBool).
+    { destruct t, typed; cbn in Hr; injection Hr as _ <-; reflexivity. }
+    subst cl.
+    eapply xseg_app; [eapply IHa; eauto|]. eapply xseg_app; [eapply IHb; eauto|].
+    rewrite <- Nat.add_assoc.
+    eapply cmp_tail; eauto.
+    + destruct t, typed, op; reflexivity.
+    + destruct op; cbn; auto.
+  - (* EAnd *)
+    intros a IHa b IHb c H pc A. cbn in H.
+    destruct (ce a) as [ca|] eqn:Ha; try discriminate. destruct (ce b) as [cb|] eqn:Hb; try discriminate.
+    destruct (cond_ok ca) eqn:Hoa; try discriminate. destruct (cond_ok cb) eqn:Hob; try discriminate.
+    injection H as <-. cbn [cexpr]. cbv zeta.
+    eapply (andor_xseg pc _ _ Jnm true false ca cb A); eauto.
+  - (* EOr *)
+    intros a IHa b IHb c H pc A. cbn in H.
+    destruct (ce a) as [ca|] eqn:Ha; try discriminate. destruct (ce b) as [cb|] eqn:Hb; try discriminate.
+    destruct (cond_ok ca) eqn:Hoa; try discriminate. destruct (cond_ok cb) eqn:Hob; try discriminate.
+    injection H as <-. cbn [cexpr]. cbv zeta.
+    eapply (andor_xseg pc _ _ Jm false true ca cb A); eauto.
+  - (* EMatch *)
+    intros pid c H pc A. cbn in H. destruct (idx_ok pid nre) eqn:Hi; try discriminate.
+    injection H as <-. apply xseg1. unfold transfer. cbn [i_op i_arg ins vbind].
+    unfold nre in Hi. rewrite (arg_index_ok pid (o_nre o) Hi). reflexivity.
+  - (* ESMatch *)
+    intros neg a IH pid c H pc A. cbn in H.
+    destruct (ce a) as [ca|] eqn:Ha; try discriminate.
+    destruct (str_ok ca) eqn:Hok; try discriminate. destruct (idx_ok pid nre) eqn:Hi; try discriminate.
+    injection H as <-. cbn [cexpr].
+    assert (Hsm : xseg pc (cexpr D pc a ++ [ins Smatch (OInt (zn pid))]) A (CBool :: A)).
+    { eapply xseg_app; [eapply IH; eauto|]. apply xseg1. unfold transfer. cbn [i_op i_arg ins vbind].
+      unfold nre in Hi. rewrite (arg_index_ok pid (o_nre o) Hi). cbn [vbind apop]. rewrite Hok. reflexivity. }
+    destruct neg.
+    + rewrite app_assoc. eapply xseg_app; [exact Hsm|]. apply xseg1. reflexivity.
+    + rewrite app_nil_r. exact Hsm.
+  - (* EGet *)
+    intros m ks IH c H pc A. cbn in H.
+    destruct (keys_ok ks) eqn:Hk; try discriminate. destruct (metric_ok m (exprs_len ks)) eqn:Hm; try discriminate.
+    injection H as <-. cbn [cexpr].
+    destruct (IH eq_refl pc A) as (L & HL & Hs & Hx).
+    change [ins Mload (OInt (zn m)); ins Dload (OInt (zl (exprs_len ks))); ins (get_op (mty D m)) ONil]
+      with ([ins Mload (OInt (zn m)); ins Dload (OInt (zl (exprs_len ks)))] ++ [ins (get_op (mty D m)) ONil]).
+    rewrite app_assoc. eapply xseg_app; [eapply lval_xseg; eauto|].
+    apply xseg1. apply get_transfer.
+  - (* ELen *)
+    intros a IH c H pc A. cbn in H. unfold un_cls in H. cbn [un_rule] in H.
+    destruct (ce a) as [ca|] eqn:Ha; try discriminate. destruct (str_ok ca) eqn:Hok; try discriminate.
+    injection H as <-. cbn [cexpr]. eapply xseg_un; eauto; reflexivity.
+  - (* ETolower *)
+    intros a IH c H pc A. cbn in H. unfold un_cls in H. cbn [un_rule] in H.
+    destruct (ce a) as [ca|] eqn:Ha; try discriminate. destruct (str_ok ca) eqn:Hok; try discriminate.
+    injection H as <-. cbn [cexpr]. eapply xseg_un; eauto; reflexivity.
+  - (* EStrtol *)
+    intros a IHa b IHb c H pc A. cbn in H.
+    destruct (ce a) as [ca|] eqn:Ha; try discriminate. destruct (ce b) as [cb|] eqn:Hb; try discriminate.
+    destruct (str_ok ca) eqn:Hoa; try discriminate. destruct (int_ok cb) eqn:Hob; try discriminate.
+    injection H as <-. cbn [cexpr]. cbv zeta.
+    eapply xseg_app; [eapply IHa; eauto|]. eapply xseg_app; [eapply IHb; eauto|].
+    apply xseg1. unfold transfer. cbn [i_op i_arg ins apop vbind]. rewrite Hob. cbn [vbind apop].
+    rewrite Hoa. reflexivity.
+  - (* ESubst *)
+    intros x IHx y IHy z IHz c H pc A. cbn in H.
+    destruct (ce x) as [cx|] eqn:Hx; try discriminate. destruct (ce y) as [cy|] eqn:Hy; try discriminate.
+    destruct (ce z) as [cz|] eqn:Hz; try discriminate.
+    destruct (str_ok cx) eqn:Hox; try discriminate. destruct (str_ok cy) eqn:Hoy; try discriminate.
+    destruct (str_ok cz) eqn:Hoz; try discriminate.
+    injection H as <-. cbn [cexpr]. cbv zeta.
+    eapply xseg_app; [eapply IHx; eauto|]. eapply xseg_app; [eapply IHy; eauto|].
+    rewrite <- Nat.add_assoc. eapply xseg_app; [rewrite Nat.add_assoc; eapply IHz; eauto|].
+    apply xseg1. unfold transfer. cbn [i_op i_arg ins apop vbind]. rewrite Hoz. cbn [vbind apop].
+    rewrite Hoy. cbn [vbind apop]. rewrite Hox. reflexivity.
+  - (* ERsubst *)
+    intros pid y IHy z IHz c H pc A. cbn in H.
+    destruct (ce y) as [cy|] eqn:Hy; try discriminate. destruct (ce z) as [cz|] eqn:Hz; try discriminate.
+    destruct (str_ok cy) eqn:Hoy; try discriminate. destruct (str_ok cz) eqn:Hoz; try discriminate.
+    destruct (idx_ok pid nre) eqn:Hi; try discriminate.
+    injection H as <-. cbn [cexpr]. cbv zeta.
+    eapply xseg_app; [eapply IHy; eauto|]. eapply xseg_app; [eapply IHz; eauto|].
+    change [ins Push (OInt (zn pid)); ins Rsubst (OInt 3%Z)]
+      with ([ins Push (OInt (zn pid))] ++ [ins Rsubst (OInt 3%Z)]).
+    eapply xseg_app; apply xseg1; [reflexivity|].
+    unfold transfer. cbn [i_op i_arg ins cls_of_operand].
+    unfold idx_ok, nre in Hi.
+    assert (Hg : (0 <=? zn pid)%Z && (zn pid <? Z.of_nat (o_nre o))%Z = true) by (unfold zn; cbn; lia).
+    rewrite Hg. cbn [vguard vbind apop]. rewrite Hoz. cbn [vbind apop]. rewrite Hoy. reflexivity.
+  - (* ETimestamp *) intros c [= <-] pc A. apply xseg1. reflexivity.
+  - (* EGetfilename *) intros c [= <-] pc A. apply xseg1. reflexivity.
+  - (* XNil *) intros _ pc A. exists []. repeat split; auto. apply xseg_nil.
+  - (* XCons *)
+    intros e IHe r IHr H pc A. cbn in H.
+    destruct (ce e) as [c|] eqn:He; try discriminate. apply andb_true_iff in H as [Hc Hr].
+    destruct (IHr Hr (pc + length (cexpr D pc e)) (c :: A)) as (L & HL & Hs & Hx).
+    exists (L ++ [c]). repeat split.
+    + rewrite app_length. cbn. lia.
+    + rewrite forallb_app, Hs. cbn. rewrite Hc. reflexivity.
+    + cbn [cexprs]. cbv zeta. eapply xseg_app; [eapply IHe; eauto|].
+      rewrite <- app_assoc. exact Hx.
+Qed.
+
+Definition cexpr_ok := proj1 cexpr_xseg.
+Definition ckeys_ok := proj2 cexpr_xseg.
+
+(* ------------------------------------------------------------------ *)
+(* Statements                                                          *)
+
+(* a strict prefix followed by one falling-through instruction *)
+Lemma sseg_x1 pc c i :
+  (forall A, exists B B', xseg pc c A B /\
+     transfer o (pc + length c) i B = VOk [(S (pc + length c), B')]) ->
+  sseg pc (c ++ [i]).
+Proof.
+  intros H. apply sseg_cases. intros A rest tbl Hlt Hl He Hn.
+  rewrite app_length in *. cbn [length] in *.
+  destruct (H A) as (B & B' & Hx & Ht).
+  destruct (Hx ([i] ++ rest) tbl) as (t1 & E1 & L1 & X1 & F1); auto; try lia.
+  { intros k Hk. apply Hn. lia. }
+  rewrite <- app_assoc, E1. cbn [app]. rewrite (infer_step _ _ _ _ _ _ X1 Ht). cbn [fold_left].
+  exists (merge t1 (S (pc + length c), B')). replace (pc + (length c + 1)) with (S (pc + length c)) by lia.
+  repeat split.
+  - rewrite merge_length. exact L1.
+  - intros k Hk. rewrite merge_other' by lia. apply F1. lia.
+Qed.
+
+Lemma sseg_stop pc : sseg pc [ins Stop ONil].
+Proof.
+  intros rest tbl Hlt Hl Hn. cbn [length app] in *.
+  destruct (wstep pc (ins Stop ONil) (fun _ => False) rest tbl) as (t & E & L & F).
+  { intros A _. exists []. split; [reflexivity|constructor]. }
+  exists t. rewrite Nat.add_1_r. repeat split; auto.
+Qed.
+
+Lemma setmatched_sseg pc b : sseg pc [ins Setmatched (OBool b)].
+Proof. apply sseg1. intros A. exists A. reflexivity. Qed.
+
+(* cond ; jnm END ; setmatched false ; block ; setmatched true ; END: *)
+Lemma cond_sseg pc cc ct c0 :
+  (forall A, xseg pc cc A (c0 :: A)) -> cond_ok c0 = true ->
+  sseg (pc + length cc + 2) ct ->
+  sseg pc (cc ++ [ins Jnm (OInt (zl (pc + length cc + 2 + length ct + 1))); ins Setmatched (OBool false)]
+              ++ ct ++ [ins Setmatched (OBool true)]).
+Proof.
+  intros Hcc Hc0 Hct. apply sseg_cases. intros A rest tbl Hlt Hl He Hn.
+  rewrite !app_length in *. cbn [length] in *.
+  set (q := pc + length cc) in *.
+  set (lend := q + 2 + length ct + 1) in *.
+  assert (Hend : pc + (length cc + (2 + (length ct + 1))) = lend) by (unfold lend, q; lia).
+  rewrite Hend in *.
+  rewrite <- !app_assoc.
+  destruct (Hcc A ([ins Jnm (OInt (zl lend)); ins Setmatched (OBool false)] ++ ct ++ [ins Setmatched (OBool true)] ++ rest) tbl)
+    as (t1 & E1 & L1 & X1 & F1); auto; try (unfold lend, q in *; lia).
+  { intros k Hk. apply Hn. unfold lend, q in *. lia. }
+  rewrite E1. fold q. fold q in X1, F1. cbn [app].
+  assert (T : transfer o q (ins Jnm (OInt (zl lend))) (c0 :: A) = VOk [(S q, A); (lend, A)]).
+  { unfold transfer; cbn [i_op i_arg ins apop vbind]; rewrite Hc0; cbn [vbind].
+    rewrite arg_target_ok by (unfold lend in *; lia). reflexivity. }
+  rewrite (infer_step _ _ _ _ _ _ X1 T). cbn [fold_left].
+  set (t2 := merge (merge t1 (S q, A)) (lend, A)).
+  assert (L2 : length t2 = length tbl) by (unfold t2; rewrite !merge_length; exact L1).
+  assert (O2 : forall k, k <> S q -> k <> lend -> nth_error t2 k = nth_error t1 k).
+  { intros k Ha Hb. unfold t2. rewrite !merge_other' by lia. auto. }
+  destruct (wstep (S q) (ins Setmatched (OBool false)) (fun k => k = S (S q))
+              (ct ++ ins Setmatched (OBool true) :: rest) t2) as (t3 & E3 & L3 & F3).
+  { intros A' _. exists [(S (S q), A')]. split; [reflexivity|]. constructor; [reflexivity|constructor]. }
+  rewrite E3.
+  replace (S (S q)) with (q + 2) in * by lia.
+  destruct (Hct (ins Setmatched (OBool true) :: rest) t3) as (t4 & E4 & L4 & F4).
+  { rewrite L3, L2. unfold lend in *. lia. }
+  { rewrite L3, L2. exact Hl. }
+  { intros k Hk. rewrite F3 by lia. rewrite O2 by (unfold lend; lia). rewrite F1 by lia.
+    apply Hn. unfold lend in *. lia. }
+  rewrite E4. cbn [app].
+  destruct (wstep (q + 2 + length ct) (ins Setmatched (OBool true)) (fun k => k = lend) rest t4) as (t5 & E5 & L5 & F5).
+  { intros A' _. exists [(S (q + 2 + length ct), A')]. split; [reflexivity|].
+    constructor; [unfold lend; cbn; lia|constructor]. }
+  rewrite E5. replace (S (q + 2 + length ct)) with lend by (unfold lend; lia).
+  exists t5. repeat split.
+  - rewrite L5, L4, L3. exact L2.
+  - intros k Hk. rewrite F5 by lia. rewrite F4 by (unfold lend in *; lia). rewrite F3 by (unfold lend in *; lia).
+    rewrite O2 by (unfold lend in *; lia). apply F1. unfold lend in *. lia.
+Qed.
+
+(* cond ; jnm ELSE ; setmatched false ; block ; setmatched true ; jmp END ; ELSE: block ; END: *)
+Lemma condelse_sseg pc cc ct ce' c0 :
+  (forall A, xseg pc cc A (c0 :: A)) -> cond_ok c0 = true ->
+  sseg (pc + length cc + 2) ct ->
+  sseg (pc + length cc + 2 + length ct + 2) ce' ->
+  sseg pc (cc ++ [ins Jnm (OInt (zl (pc + length cc + 2 + length ct + 2))); ins Setmatched (OBool false)]
+              ++ ct ++ [ins Setmatched (OBool true);
+                        ins Jmp (OInt (zl (pc + length cc + 2 + length ct + 2 + length ce')))] ++ ce').
+Proof.
+  intros Hcc Hc0 Hct Hce. apply sseg_cases. intros A rest tbl Hlt Hl He Hn.
+  rewrite !app_length in *. cbn [length] in *.
+  set (q := pc + length cc) in *.
+  set (lelse := q + 2 + length ct + 2) in *.
+  set (lend := lelse + length ce') in *.
+  assert (Hend : pc + (length cc + (2 + (length ct + (2 + length ce')))) = lend) by (unfold lend, lelse, q; lia).
+  rewrite Hend in *.
+  rewrite <- !app_assoc.
+  destruct (Hcc A ([ins Jnm (OInt (zl lelse)); ins Setmatched (OBool false)] ++ ct ++
+                   [ins Setmatched (OBool true); ins Jmp (OInt (zl lend))] ++ ce' ++ rest) tbl)
+    as (t1 & E1 & L1 & X1 & F1); auto; try (unfold lend, lelse, q in *; lia).
+  { intros k Hk. apply Hn. unfold lend, lelse, q in *. lia. }
+  rewrite E1. fold q. fold q in X1, F1. cbn [app].
+  assert (T : transfer o q (ins Jnm (OInt (zl lelse))) (c0 :: A) = VOk [(S q, A); (lelse, A)]).
+  { unfold transfer; cbn [i_op i_arg ins apop vbind]; rewrite Hc0; cbn [vbind].
+    rewrite arg_target_ok by (unfold lend, lelse in *; lia). reflexivity. }
+  rewrite (infer_step _ _ _ _ _ _ X1 T). cbn [fold_left].
+  set (t2 := merge (merge t1 (S q, A)) (lelse, A)).
+  assert (L2 : length t2 = length tbl) by (unfold t2; rewrite !merge_length; exact L1).
+  assert (O2 : forall k, k <> S q -> k <> lelse -> nth_error t2 k = nth_error t1 k).
+  { intros k Ha Hb. unfold t2. rewrite !merge_other' by lia. auto. }
+  destruct (wstep (S q) (ins Setmatched (OBool false)) (fun k => k = S (S q))
+              (ct ++ ins Setmatched (OBool true) :: ins Jmp (OInt (zl lend)) :: ce' ++ rest) t2)
+    as (t3 & E3 & L3 & F3).
+  { intros A' _. exists [(S (S q), A')]. split; [reflexivity|]. constructor; [reflexivity|constructor]. }
+  rewrite E3.
+  replace (S (S q)) with (q + 2) in * by lia.
+  destruct (Hct (ins Setmatched (OBool true) :: ins Jmp (OInt (zl lend)) :: ce' ++ rest) t3) as (t4 & E4 & L4 & F4).
+  { rewrite L3, L2. unfold lend, lelse in *. lia. }
+  { rewrite L3, L2. exact Hl. }
+  { intros k Hk. rewrite F3 by lia. rewrite O2 by (unfold lelse; lia). rewrite F1 by lia.
+    apply Hn. unfold lend, lelse in *. lia. }
+  rewrite E4.
+  set (pe := q + 2 + length ct) in *.
+  destruct (wstep pe (ins Setmatched (OBool true)) (fun k => k = S pe)
+              (ins Jmp (OInt (zl lend)) :: ce' ++ rest) t4) as (t5 & E5 & L5 & F5).
+  { intros A' _. exists [(S pe, A')]. split; [reflexivity|]. constructor; [reflexivity|constructor]. }
+  rewrite E5.
+  destruct (wstep (S pe) (ins Jmp (OInt (zl lend))) (fun k => k = lend) (ce' ++ rest) t5) as (t6 & E6 & L6 & F6).
+  { intros A' _. exists [(lend, A')]. split.
+    - unfold transfer. cbn [i_op i_arg ins vbind].
+      rewrite arg_target_ok by (unfold lend, lelse, pe in *; lia). reflexivity.
+    - constructor; [reflexivity|constructor]. }
+  rewrite E6. replace (S (S pe)) with lelse by (unfold lelse, pe; lia).
+  destruct (Hce rest t6) as (t7 & E7 & L7 & F7).
+  { rewrite L6, L5, L4, L3, L2. unfold lend in *. unfold lelse, pe in *. lia. }
+  { rewrite L6, L5, L4, L3, L2. exact Hl. }
+  { fold lelse. intros k Hk. rewrite F6 by (unfold lend; lia). rewrite F5 by (unfold lelse, pe in *; lia).
+    rewrite F4 by (unfold lelse, pe in *; lia). rewrite F3 by (unfold lelse, pe in *; lia).
+    rewrite O2 by (unfold lelse, pe in *; lia). rewrite F1 by (unfold lelse, pe in *; lia).
+    apply Hn. unfold lend, lelse, pe in *. lia. }
+  fold lelse in E7, F7. fold lend in E7, F7. rewrite E7.
+  exists t7. repeat split.
+  - rewrite L7, L6, L5, L4, L3. exact L2.
+  - intros k Hk. rewrite F7 by lia. rewrite F6 by lia. rewrite F5 by (unfold lend, lelse, pe in *; lia).
+    rewrite F4 by (unfold lend, lelse, pe in *; lia). rewrite F3 by (unfold lend, lelse, pe in *; lia).
+    rewrite O2 by (unfold lend, lelse, pe in *; lia). apply F1. unfold lend, lelse, pe in *. lia.
+Qed.
+
+(* ---- acceptance of statements ---- *)
+Definition dty (m : N) : mtype := mtype_of (mty D m).
+Definition lval_ok (m : N) (ks : exprs) : bool := keys_ok ks && metric_ok m (exprs_len ks).
+
+Definition set_ok (t : ty) (c : cls) (mt : mtype) : bool :=
+  match t with
+  | TFloat => float_ok c && mtype_eqb mt TyFloat
+  | TStr => str_ok c && mtype_eqb mt TyString
+  | _ => int_ok c && mtype_eqb mt TyInt
+  end.
+
+Fixpoint cs (s : stmt) {struct s} : bool :=
+  match s with
+  | SInc m ks | SDec m ks => lval_ok m ks && mtype_eqb (dty m) TyInt
+  | SSet t m ks e =>
+      lval_ok m ks && match ce e with Some c => set_ok t c (dty m) | None => false end
+  | SAddTo t m ks e =>
+      lval_ok m ks &&
+      match ce e with
+      | Some c =>
+          match t with
+          | TInt | TBool => int_ok c && mtype_eqb (dty m) TyInt
+          | _ => lval_ok m (shift_exprs (nstr_exprs ks) ks) && set_ok t c (dty m)
+          end
+      | None => false
+      end
+  | SSettime e => match ce e with Some c => is_cls CI64 c | None => false end
+  | SStrptime e sid _ =>
+      match ce e with Some c => is_cls CStr c && idx_ok sid nstrs | None => false end
+  | SCond c th => match ce c with Some k => cond_ok k | None => false end && cb th
+  | SCondElse c th el => match ce c with Some k => cond_ok k | None => false end && cb th && cb el
+  | SOtherwise th => cb th
+  | SDel m ks => lval_ok m ks
+  | SExpire m ks _ => lval_ok m ks
+  | SStop => true
+  end
+with cb (b : block) {struct b} : bool :=
+  match b with BNil => true | BCons s r => cs s && cb r end.
+
+Definition accepts : bool := cb (p_body p).
+
+Lemma mtype_eqb_eq a b : mtype_eqb a b = true -> a = b.
+Proof. destruct a, b; cbn; congruence. Qed.
+
+Lemma clval_xseg pc m ks A :
+  lval_ok m ks = true -> xseg pc (clval D pc m ks) A (CDatum (dty m) :: A).
+Proof.
+  unfold lval_ok. intros H. apply andb_true_iff in H as [Hk Hm].
+  destruct (ckeys_ok ks Hk pc A) as (L & HL & Hs & Hx).
+  unfold clval. eapply lval_xseg; eauto.
+Qed.
+
+(* keys ; mload : the metric on top of its keys *)
+Lemma mload_keys pc m ks A :
+  lval_ok m ks = true ->
+  exists L d, xseg pc (cexprs D pc ks ++ [ins Mload (OInt (zn m))]) A (CMetric (N.to_nat m) :: L ++ A) /\
+    forall a, a = OInt (zl (exprs_len ks)) ->
+      apop_metric_keys o a (CMetric (N.to_nat m) :: L ++ A) = VOk (mdesc_of d, A).
+Proof.
+  unfold lval_ok. intros H. apply andb_true_iff in H as [Hk Hm].
+  destruct (ckeys_ok ks Hk pc A) as (L & HL & Hs & Hx).
+  destruct (metric_ok_inv _ _ Hm) as (d & Hd & Hn & Hi & Hmd & Hty).
+  exists L, d. split.
+  - eapply xseg_app; [exact Hx|]. apply xseg1. unfold transfer. cbn [i_op i_arg ins vbind].
+    rewrite (arg_index_ok _ _ Hi). reflexivity.
+  - intros a ->. unfold apop_metric_keys. rewrite Hmd. unfold zl. cbn [arg_int vbind md_arity mdesc_of].
+    assert (Hg : (Z.of_nat (exprs_len ks) =? Z.of_nat (N.to_nat (md_nkeys d)))%Z = true) by lia.
+    rewrite Hg. cbn [vguard vbind]. rewrite <- Hn, <- HL. rewrite apop_n_app by auto. reflexivity.
+Qed.
+
+Scheme stmt_mind := Induction for stmt Sort Prop
+  with block_mind := Induction for block Sort Prop.
+Combined Scheme stmt_block_ind from stmt_mind, block_mind.
+
+Lemma cstmt_sseg :
+  (forall s, cs s = true -> forall pc, sseg pc (cstmt D pc s)) /\
+  (forall b, cb b = true -> forall pc, sseg pc (cblock D pc b)).
+Proof.
+  apply stmt_block_ind.
+  - (* SInc *)
+    intros m ks H pc. cbn in H. apply andb_true_iff in H as [Hl Ht]. apply mtype_eqb_eq in Ht.
+    cbn [cstmt]. apply sseg_x1. intros A. exists (CDatum (dty m) :: A), (CI64 :: A).
+    split; [apply clval_xseg; auto|]. rewrite Ht. reflexivity.
+  - (* SDec *)
+    intros m ks H pc. cbn in H. apply andb_true_iff in H as [Hl Ht]. apply mtype_eqb_eq in Ht.
+    cbn [cstmt]. apply sseg_x1. intros A. exists (CDatum (dty m) :: A), (CI64 :: A).
+    split; [apply clval_xseg; auto|]. rewrite Ht. reflexivity.
+  - (* SSet *)
+    intros t m ks e H pc. cbn in H. apply andb_true_iff in H as [Hl He].
+    destruct (ce e) as [c|] eqn:Hc; try discriminate.
+    cbn [cstmt]. cbv zeta. rewrite app_assoc. apply sseg_x1. intros A.
+    exists (c :: CDatum (dty m) :: A), A. split.
+    + eapply xseg_app; [apply clval_xseg; auto|]. eapply cexpr_ok; eauto.
+    + unfold set_ok in He. destruct t; apply andb_true_iff in He as [H1 H2]; apply mtype_eqb_eq in H2;
+      rewrite H2; unfold transfer; cbn [i_op i_arg ins set_op apop vbind]; rewrite H1; reflexivity.
+  - (* SAddTo *)
+    intros t m ks e H pc. cbn in H. apply andb_true_iff in H as [Hl He].
+    destruct (ce e) as [c|] eqn:Hc; try discriminate.
+    cbn [cstmt]. cbv zeta.
+    assert (Hint : int_ok c && mtype_eqb (dty m) TyInt = true ->
+              sseg pc (clval D pc m ks ++ cexpr D (pc + length (clval D pc m ks)) e ++ [ins Inc (OInt 0%Z)])).
+    { intros Hi. apply andb_true_iff in Hi as [H1 H2]. apply mtype_eqb_eq in H2.
+      rewrite app_assoc. apply sseg_x1. intros A.
+      exists (c :: CDatum (dty m) :: A), (CI64 :: A). split.
+      - eapply xseg_app; [apply clval_xseg; auto|]. eapply cexpr_ok; eauto.
+      - rewrite H2. unfold transfer; cbn [i_op i_arg ins apop vbind]; rewrite H1; reflexivity. }
+    assert (Hoth : forall op sop ok,
+              lval_ok m (shift_exprs (nstr_exprs ks) ks) = true ->
+              ok c = true -> ok (CDatum (dty m)) = true ->
+              bin_rule op = Some (ok, match op with Cat => CStr | _ => CF64 end) ->
+              (forall pc' A, transfer o pc' (ins sop ONil)
+                  ((match op with Cat => CStr | _ => CF64 end) :: CDatum (dty m) :: A) = VOk [(S pc', A)]) ->
+              sseg pc (clval D pc m ks ++
+                       clval D (pc + length (clval D pc m ks)) m (shift_exprs (nstr_exprs ks) ks) ++
+                       cexpr D (pc + length (clval D pc m ks) +
+                                length (clval D (pc + length (clval D pc m ks)) m (shift_exprs (nstr_exprs ks) ks))) e ++
+                       [ins op ONil; ins sop ONil])).
+    { intros op sop ok Hl2 Hokc Hokd Hr Hset.
+      change [ins op ONil; ins sop ONil] with ([ins op ONil] ++ [ins sop ONil]).
+      rewrite !app_assoc. apply sseg_x1. intros A.
+      eexists. exists A. split.
+      - rewrite <- !app_assoc. eapply xseg_app; [apply clval_xseg; auto|].
+        eapply xseg_app; [apply clval_xseg; auto|].
+        eapply xseg_app; [eapply cexpr_ok; eauto|].
+        apply xseg1. eapply bin_transfer; eauto. destruct op; try discriminate; exact I.
+      - apply Hset. }
+    destruct t.
+    + apply Hint; auto.
+    + apply andb_true_iff in He as [Hl2 Hs]. unfold set_ok in Hs.
+      apply andb_true_iff in Hs as [H1 H2]. apply mtype_eqb_eq in H2.
+      apply (Hoth Fadd Fset float_ok); auto.
+      * rewrite H2. reflexivity.
+      * intros pc' A. rewrite H2. reflexivity.
+    + apply andb_true_iff in He as [Hl2 Hs]. unfold set_ok in Hs.
+      apply andb_true_iff in Hs as [H1 H2]. apply mtype_eqb_eq in H2.
+      apply (Hoth Cat Sset str_ok); auto.
+      * rewrite H2. reflexivity.
+      * intros pc' A. rewrite H2. reflexivity.
+    + apply Hint; auto.
+  - (* SSettime *)
+    intros e H pc. cbn in H. destruct (ce e) as [c|] eqn:Hc; try discriminate.
+    destruct c; try discriminate. cbn [cstmt]. apply sseg_x1. intros A.
+    exists (CI64 :: A), A. split; [eapply cexpr_ok; eauto|reflexivity].
+  - (* SStrptime *)
+    intros e sid layout H pc. cbn in H. destruct (ce e) as [c|] eqn:Hc; try discriminate.
+    apply andb_true_iff in H as [H1 H2]. destruct c; try discriminate. cbn [cstmt].
+    change [ins Str (OInt (zn sid)); ins Strptime (OInt 2%Z)]
+      with ([ins Str (OInt (zn sid))] ++ [ins Strptime (OInt 2%Z)]).
+    rewrite app_assoc. apply sseg_x1. intros A.
+    exists (CStr :: CStr :: A), A. split; [|reflexivity].
+    eapply xseg_app; [eapply cexpr_ok; eauto|]. apply xseg1.
+    unfold transfer. cbn [i_op i_arg ins vbind]. unfold nstrs in H2.
+    rewrite (arg_index_ok sid (length (o_strs o)) H2). reflexivity.
+  - (* SCond *)
+    intros c th IH H pc. cbn in H. apply andb_true_iff in H as [Hc Hb].
+    destruct (ce c) as [k|] eqn:Hk; try discriminate.
+    cbn [cstmt]. cbv zeta. apply cond_sseg with (c0 := k); auto.
+    intros A. eapply cexpr_ok; eauto.
+  - (* SCondElse *)
+    intros c th IHt el IHe H pc. cbn in H. apply andb_true_iff in H as [H Hbe].
+    apply andb_true_iff in H as [Hc Hbt].
+    destruct (ce c) as [k|] eqn:Hk; try discriminate.
+    cbn [cstmt]. cbv zeta. apply condelse_sseg with (c0 := k); auto.
+    intros A. eapply cexpr_ok; eauto.
+  - (* SOtherwise *)
+    intros th IH H pc. cbn in H. cbn [cstmt]. cbv zeta.
+    pose proof (cond_sseg pc [ins Otherwise ONil] (cblock D (pc + 3) th) CBool) as Hc.
+    cbn [length app] in Hc.
+    replace (pc + 1 + 2) with (pc + 3) in Hc by lia.
+    apply Hc; auto. intros A. apply xseg1. reflexivity.
+  - (* SDel *)
+    intros m ks H pc. cbn in H. cbn [cstmt].
+    change [ins Mload (OInt (zn m)); ins Del (OInt (zl (exprs_len ks)))]
+      with ([ins Mload (OInt (zn m))] ++ [ins Del (OInt (zl (exprs_len ks)))]).
+    rewrite app_assoc. apply sseg_x1. intros A.
+    destruct (mload_keys pc m ks A H) as (L & d & Hx & Hp).
+    eexists. exists A. split; [exact Hx|].
+    unfold transfer. cbn [i_op i_arg ins]. rewrite (Hp _ eq_refl). reflexivity.
+  - (* SExpire *)
+    intros m ks d H pc. cbn in H. cbn [cstmt].
+    change [ins Mload (OInt (zn m)); ins Expire (OInt (zl (exprs_len ks)))]
+      with ([ins Mload (OInt (zn m))] ++ [ins Expire (OInt (zl (exprs_len ks)))]).
+    rewrite !app_assoc. apply sseg_x1. intros A.
+    destruct (mload_keys (pc + 1) m ks (CDur :: A) H) as (L & d' & Hx & Hp).
+    eexists. exists A. split.
+    + rewrite <- app_assoc. eapply xseg_app; [apply xseg1; reflexivity|]. exact Hx.
+    + unfold transfer. cbn [i_op i_arg ins]. rewrite (Hp _ eq_refl). reflexivity.
+  - (* SStop *) intros _ pc. apply sseg_stop.
+  - (* BNil *) intros _ pc. apply sseg_nil.
+  - (* BCons *)
+    intros s IHs r IHr H pc. cbn in H. apply andb_true_iff in H as [Hs Hr].
+    cbn [cblock]. cbv zeta. apply sseg_app; auto.
+Qed.
+
+Theorem accepts_verify : accepts = true -> verify o = true.
+Proof.
+  intros H. destruct cstmt_sseg as [_ Hb]. specialize (Hb (p_body p) H 0).
+  unfold sseg in Hb.
+  destruct (Hb [] (Some [] :: repeat None (nprog o))) as (t & E & L & F).
+  - cbn [length]. rewrite repeat_length. unfold nprog, o, codegen. cbn [o_prog]. fold D. lia.
+  - cbn [length]. rewrite repeat_length. reflexivity.
+  - intros k Hk. destruct k as [|k]; [lia|]. cbn [nth_error].
+    rewrite nth_error_repeat; auto. unfold nprog, o, codegen. cbn [o_prog]. fold D. lia.
+  - assert (Hi : infer o = inl t).
+    { unfold infer. change (o_prog o) with (cblock D 0 (p_body p)).
+      rewrite <- (app_nil_r (cblock D 0 (p_body p))). rewrite E. reflexivity. }
+    eapply infer_verify; eauto.
+Qed.
+
 End CG.
+
+(* the statement over programs *)
+Theorem codegen_verifies : forall p : prog, accepts p = true -> verify (codegen p) = true.
+Proof. exact accepts_verify. Qed.
